@@ -508,6 +508,40 @@ def job_pattern(which, size, occ, notes):
                funcs=['pattern.%s_FPR' % which, 'pattern._compute_score_matrix', 'pattern._occurrence_intersection'], bounds=dict(size=size), timeout_s=2400)
 
 
+def job_multipitch(nr, ne):
+    """one frame with nr reference and ne estimated pitches in any order: precision = k/|est|, recall = k/|ref|,
+    accuracy = k/(|ref|+|est|-k) with k the size of a maximum one-to-one matching of pitches within `window` semitones"""
+    import mir_eval.multipitch as MP
+
+    def build(ctx):
+        d = T.b_multipitch(1)(ctx, (1, 1))
+        rf = [C.log_freqs(ctx, 'rf', nr)]
+        ef = [C.log_freqs(ctx, 'ef', ne)]
+        return dict(t=d['ref'][0], rf=rf, ef=ef, w=d['kw']['window'])
+
+    def body(A, inp):
+        res = MP.metrics(inp['t'], inp['rf'], inp['t'].copy(), inp['ef'], window=inp['w'])
+        P, R, Acc = res[0], res[1], res[2]
+        for nm, v in (('P', P), ('R', R), ('Acc', Acc)):
+            A.observe(nm, v)
+        rm = MP.frequencies_to_midi(inp['rf'])[0]
+        em = MP.frequencies_to_midi(inp['ef'])[0]
+        Tm = [[(A.le(C.absd(rm[i], em[j]), inp['w']) if A.sym else bool(abs(rm[i] - em[j]) <= inp['w'])) for j in range(ne)] for i in range(nr)]
+        k = int(round(float(P) * ne))
+        A.require(abs(float(P) * ne - k) < 1e-9 and abs(float(R) * nr - k) < 1e-9, 'multipitch:P==k/|est|,R==k/|ref|')
+        A.require(A.eq(Acc, k / float(nr + ne - k)), 'multipitch:Acc==k/(|ref|+|est|-k)')
+        if A.sym:
+            A.require(C.exists_matching(Tm, k), 'multipitch:a-matching-of-size-k-exists')
+            A.require(C.no_larger_matching(Tm, k), 'multipitch:no-larger-matching-exists')
+        else:
+            mx = C.max_matching_size([[bool(x) for x in row] for row in Tm])
+            A.require(mx >= k, 'multipitch:a-matching-of-size-k-exists')
+            A.require(mx <= k, 'multipitch:no-larger-matching-exists')
+    return Job('C04', 'multipitch.metrics[1 frame,%dx%d pitches in any order]' % (nr, ne), build, body, exact_floats=False,
+               funcs=['multipitch.metrics', 'multipitch.compute_num_true_positives', 'multipitch.compute_accuracy', 'util.match_events'],
+               bounds=dict(ref=nr, est=ne), timeout_s=1500)
+
+
 def jobs(tier):
     q = tier == 'quick'
     js = []
@@ -528,6 +562,8 @@ def jobs(tier):
     for n in ((1, 2) if q else (1, 2, 3)):
         js.append(job_melody(n, True))
         js.append(job_melody(n, False))
+    for (a, b) in ([(2, 1), (2, 2)] if q else [(2, 1), (1, 2), (2, 2), (3, 2)]):
+        js.append(job_multipitch(a, b))
     js.append(job_tempo())
     js.append(job_key(10 if q else len(T.KEY_STRINGS)))
     for n in ((1, 2, 3) if q else (1, 2, 3, 4)):
